@@ -156,11 +156,11 @@ def check(ctx, src):
                     ctx.ok("R-LIN-ANON", key, f"statement-free sub-form: {why}")
                     continue
                 ctx.bad("R-LIN-ANON", key, f"`{txt[:80]}` keeps only the expression of the compiled sub-form; statements it compiles to are dropped",
-                        m.rel, c.lineno, witness="put a statement-producing form such as (do (setv x 1) x) in this slot: `x = 1` never appears in the output")
+                        m.rel, c.lineno, witness="put a statement-producing form such as (do (setv x 1) x) in this slot: `x = 1` never appears in the output", robust=True)
                 continue
             # --- bare expression statement
             if isinstance(p, ast.Expr):
-                ctx.bad("R-LIN-VAR", key, "the compiled Result is discarded", m.rel, c.lineno, witness="any form in this slot vanishes from the output")
+                ctx.bad("R-LIN-VAR", key, "the compiled Result is discarded", m.rel, c.lineno, witness="any form in this slot vanishes from the output", robust=True)
                 continue
             # --- bound to a variable: find consuming uses
             tgt = None
@@ -225,7 +225,7 @@ def check(ctx, src):
                 ctx.unres("R-LIN-VAR", key, f"`{tgt}`: uses not all understood")
             else:
                 ctx.bad("R-LIN-VAR", key, f"the Result bound to `{tgt}` is only inspected (.expr/.force_expr/tests) and never placed in the output: its statements are dropped",
-                        m.rel, c.lineno, witness="put (do (setv x 1) x) in this slot")
+                        m.rel, c.lineno, witness="put (do (setv x 1) x) in this slot", robust=True)
     ctx.need(n_prod >= 85, f"only {n_prod} Result-producing call sites found (99 confirmed by hand)")
 
     # --- direct stores to Result.expr keep the operand's temp_variables: setv would then rename the operand's temporary
